@@ -11,7 +11,8 @@
 //!        random initial counter of a session the datagram creates (filled in by the harness)
 //!        => `blocked` (a message is waiting) | `kept` (left in the RX slot) | `drop`
 //!   `acc`                 `Exchange::accept` polled once   => `acc <uid> <idx>` | `blocked`
-//!   `recv <uid> <idx>`    `Exchange::recv` of that handle polled once
+//!   `recv <uid> <idx>`    `Exchange::recv` of that handle is called and polled once; if it stays pending the future
+//!        stays parked and the next `recv` of the handle polls it again (as the executor would)
 //!        => `dlv <port>/<sid>/<ctr>/<exch>` | `blocked` | `gone` (session removed) | `retr`
 //!   `send <uid> <idx> <r|u>`  `Session::pre_send` for a message of that exchange  => `ok` | `err X` | `blocked` | `gone`
 //!   `drop <uid> <idx>`    the `Exchange` handle is dropped  => `ok` | `blocked`
@@ -93,11 +94,19 @@ fn datagram(port: u16, sid: u16, ctr: u32, exch: u16, initiator: bool, kind: &st
     b
 }
 
+/// a live `Exchange` object and, if its owner is parked in `recv`, the pending future (which
+/// borrows the exchange: it is declared first so that it is dropped first)
+struct Handle<'a> {
+    key: (u32, usize),
+    fut: Option<core::pin::Pin<Box<dyn core::future::Future<Output = Result<(), Error>> + 'a>>>,
+    ex: Box<Exchange<'a>>,
+}
+
 struct World<'a, C: Crypto> {
     matter: &'a Matter<'a>,
     crypto: &'a C,
     /// live `Exchange` objects by (session uid, slot)
-    handles: Vec<((u32, usize), Exchange<'a>)>,
+    handles: Vec<Handle<'a>>,
 }
 
 impl<'a, C: Crypto> World<'a, C> {
@@ -162,7 +171,7 @@ impl<'a, C: Crypto> World<'a, C> {
                 match block_on(poll_once(fut)) {
                     Some(Ok(ex)) => {
                         let (uid, idx) = ex.verif_ids();
-                        self.handles.push(((uid, idx), ex));
+                        self.handles.push(Handle { key: (uid, idx), fut: None, ex: Box::new(ex) });
                         same(&format!("acc {} {}", uid, idx))
                     }
                     Some(Err(e)) => same(&format!("err {}", err_name(&e))),
@@ -172,24 +181,35 @@ impl<'a, C: Crypto> World<'a, C> {
             "recv" => {
                 let key = (num(1) as u32, num(2) as usize);
                 let exists = self.sess_exists(key.0);
-                match self.handles.iter_mut().find(|(k, _)| *k == key) {
+                match self.handles.iter_mut().find(|h| h.key == key) {
                     None => same(if exists { "blocked" } else { "gone" }),
-                    Some((_, ex)) => {
-                        let r = {
-                            let fut = core::pin::pin!(ex.recv());
-                            match block_on(poll_once(fut)) {
-                                Some(Ok(rx)) => {
-                                    // the slot is emptied when the message is dropped
-                                    drop(rx);
-                                    "dlv".to_string()
-                                }
-                                Some(Err(e)) => match e.code() {
+                    Some(h) => {
+                        // the owner calls `recv` (or, if it is already parked in it, is polled again)
+                        if h.fut.is_none() {
+                            let p: *mut Exchange<'a> = &mut *h.ex;
+                            // SAFETY: the future is dropped before the boxed exchange (field order, and
+                            // every op that uses the exchange otherwise drops the future first)
+                            let exref: &'a mut Exchange<'a> = unsafe { &mut *p };
+                            h.fut = Some(Box::pin(async move { exref.recv().await.map(drop) }));
+                        }
+                        let polled = block_on(poll_once(h.fut.as_mut().unwrap().as_mut()));
+                        let r = match polled {
+                            Some(Ok(())) => {
+                                h.fut = None;
+                                "dlv".to_string()
+                            }
+                            Some(Err(e)) => {
+                                h.fut = None;
+                                match e.code() {
                                     ErrorCode::NoSession => "gone".into(),
                                     ErrorCode::InvalidState => "retr".into(),
+                                    // the owner's own receive time-out is outside the model: it just calls again later
+                                    ErrorCode::RxTimeout => if exists { "blocked".into() } else { "gone".into() },
                                     _ => format!("err {}", err_name(&e)),
-                                },
-                                None => "blocked".into(),
+                                }
                             }
+                            // parked; an owner whose session vanished learns it when it is notified
+                            None => if exists { "blocked".into() } else { "gone".into() },
                         };
                         same(&r)
                     }
@@ -198,8 +218,10 @@ impl<'a, C: Crypto> World<'a, C> {
             "send" => {
                 let key = (num(1) as u32, num(2) as usize);
                 let exists = self.sess_exists(key.0);
-                if !self.handles.iter().any(|(k, _)| *k == key) {
-                    return same(if exists { "blocked" } else { "gone" });
+                match self.handles.iter_mut().find(|h| h.key == key) {
+                    None => return same(if exists { "blocked" } else { "gone" }),
+                    // an owner that sends is not parked in `recv` any more
+                    Some(h) => h.fut = None,
                 }
                 let mut hdr = PacketHdr::new();
                 if w.get(3).copied() == Some("r") {
@@ -220,10 +242,10 @@ impl<'a, C: Crypto> World<'a, C> {
             "drop" => {
                 let key = (num(1) as u32, num(2) as usize);
                 let exists = self.sess_exists(key.0);
-                match self.handles.iter().position(|(k, _)| *k == key) {
+                match self.handles.iter().position(|h| h.key == key) {
                     None => same("blocked"),
                     Some(i) => {
-                        let (_, ex) = self.handles.remove(i);
+                        let ex = self.handles.remove(i);
                         match catch_unwind(AssertUnwindSafe(move || drop(ex))) {
                             Ok(()) => same(if exists { "ok" } else { "blocked" }),
                             Err(_) => same("panic"),
@@ -238,7 +260,7 @@ impl<'a, C: Crypto> World<'a, C> {
                     Ok(Err(e)) => same(&format!("err {}", err_name(&e))),
                     Ok(Ok(ex)) => {
                         let k = ex.verif_ids();
-                        self.handles.push((k, ex));
+                        self.handles.push(Handle { key: k, fut: None, ex: Box::new(ex) });
                         same("ok")
                     }
                 }
@@ -277,6 +299,8 @@ impl<'a, C: Crypto> World<'a, C> {
                 });
                 same("ok")
             }
+            // a parked owner is polled again although nothing it waits for has happened
+            // (spurious wake-up; in particular after its session was removed)
             "swa" | "swo" => {
                 let runner = self.matter.transport_runner(self.crypto);
                 match runner.verif_sweep_real_rx(w[0] == "swo") {
